@@ -332,6 +332,14 @@ retry:
 			verifPoint(VpInsBeforeLink, unsafe.Pointer(x))
 			if buf.preds[i].dcasNext(i, next, x, false, false) {
 				verifPoint(VpInsLinked, unsafe.Pointer(x))
+				// A concurrent delete may have marked the node after the check
+				// above and finished its unlink pass before this level was
+				// linked. Unlink it here, while the insert still holds its
+				// accessor token, so that it is never reclaimed while linked.
+				if _, deleted := x.getNext(i); deleted {
+					s.findPath(itm, insCmp, buf, sts)
+					goto finished
+				}
 				break fixThisLevel
 			}
 
